@@ -201,18 +201,15 @@ pub fn gen_pair_plan(rng: &mut Rng, env: &Env, spec: &PairSpec, builder_idx: usi
         g2s_sorted.sort_unstable();
         let c1 = partition(rng, &g1s_sorted, gs.n_c1, gs.style1);
         let mut c2 = partition(rng, &g2s_sorted, gs.n_c2, gs.style2);
-        // the class containing the pool's first glyph goes first, and differs
-        // between groups (so that a new group cannot join the previous
-        // subtable): drop `gi` trailing glyphs from it
+        // the class containing the pool's first glyph goes first and gets one
+        // extra glyph that is specific to the group: the class-2 sets of two
+        // groups then overlap partially (both hold the pool's first glyph) and
+        // a new group can never join the previous group's subtable
         let anchor = env.g(SECOND_BASE as u16);
         if let Some(k) = c2.iter().position(|c| c.contains(&anchor)) {
             c2.swap(0, k);
-            for _ in 0..gi {
-                if c2[0].len() > 1 {
-                    let last = *c2[0].iter().rev().find(|g| **g != anchor).unwrap();
-                    c2[0].retain(|g| *g != last);
-                }
-            }
+            c2[0].push(env.g((SECOND_BASE + SECOND_SPAN + 1 + gi) as u16));
+            c2[0].sort_unstable();
         }
         let gidx = plan.groups.len() as u16;
         let mut first = true;
